@@ -1,4 +1,7 @@
 use engine::Property;
+pub mod c16;
+pub mod c18;
+
 pub fn properties() -> Vec<Box<dyn Property>> {
-    vec![]
+    vec![Box::new(c16::C16), Box::new(c18::C18)]
 }
